@@ -34,6 +34,11 @@ CHECKS = {
    text="On stores reached by seeded histories, up to 10 invalid requests per store from a catalogue of 22 (unknown resource/annotation/dataset/key/data, out-of-range and inverted offsets, complex selector with an invalid last member, nested complex selector, missing target - each combined with data new to the store -, valid target with unknown set/key/data handles after new data, duplicate annotation/resource/dataset/data ids) and one batch per store (annotate_from_iter, annotate_from_file, ADD query) with the invalid item first, in the middle or last: the snapshot after the refusal must equal the snapshot before, and the corrected request must leave the store equal to a twin that never saw the failure. Held for the faults observed except the recorded findings (annotate() is not atomic).",
    note="Trusted: obs.rs observation, c12::answers, the dump hook. Requests where model and library disagree on refusal are C03/C04's business and are not judged here; with_annotations() (consumes the store) is not exercised.",
    ref="5/C14"),
+ "C16": dict(
+   technique="runtime oracle monitor with ground truth by construction: texts assembled from shared fragments so that coverage and the expected target pieces of every source are known; checked stage by stage (transpose result, annotate_from_iter, transposed pieces and text, new transposition, transposing back), with a before/after snapshot for refused sources",
+   text="2-3 texts built from 1-5 shared fragments (1-4 byte codepoints) with 0-3 codepoints of noise, re-ordered on the other sides; simple and complex transpositions; sources of 1-2 ranges inside a fragment, across adjacent fragments (re-segmentation), partly or wholly outside; source side Auto/ByIndex; with and without source id. A covered source must transpose, its builders must be accepted, the transposed annotation must lie in the other resource with the expected pieces and identical text piece by piece, the new transposition must link sides with identical text, and transposing back must return the original offsets; an uncovered source must be refused and leave the store unchanged. Held on the setups observed.",
+   note="Trusted: the construction in harness/src/c16.rs (a source is covered iff every position of it lies inside a fragment of its side). Transpositions within a single resource and TransposeConfig variants other than source side / ids are not exercised.",
+   ref="5/C16"),
  "C15": dict(
    technique="runtime monitoring: round-trip differential on stores reached by seeded histories through the STAM CSV files (manifest, annotations table, dataset tables, .txt resources) - canonical observation with values reduced to their text",
    text="Final states of seeded histories (all selector kinds incl. complex selectors with mixed and range-compressed sub-selectors, end-aligned and relative offsets, gaps, ids without ';') are saved as STAM CSV and loaded again; resources and texts, keys, data ids and value text, annotation ids, data references, targets (kinds, referenced items, absolute ranges, selected text) and every reverse lookup must be equal. Held on the stores observed; the two temp-id findings are recorded.",
